@@ -760,4 +760,212 @@ theorem bankruptcy_solv {c : Ctx} {available : Int} {o : BkrOut} (h : bankruptcy
           intro h00; rw [h00] at hkill; simp at hkill
         omega
 
+/-! ### classic liquidation: two banks -/
+
+theorem stateOf_live {opState : Int} {k : Gate.Kind} (h : stateOf opState k = .ok ()) : opState ≠ 3 := by
+  unfold stateOf at h
+  intro h3
+  rw [h3] at h
+  have : Gate.OpState.ofInt 3 = some .killedByBankruptcy := by decide
+  rw [this] at h
+  simp [Gate.validateBankState] at h
+
+/-- the amounts of a liquidation: non-negative, the fee is the difference, split exactly into whole tokens and fraction -/
+theorem liqAmountsLate_spec {n ap lp dA dL lq fin fee w : Int} (hn : 0 < n) (hap : 0 < ap) (hlp : 0 < lp)
+    (h : liqAmountsLate n ap lp dA dL = .ok (lq, fin, fee)) (hw : Fx.toU64? fee = some w) :
+    0 ≤ lq ∧ 0 ≤ fin ∧ lq - fin = w * ONE + Fx.frac fee ∧ 0 ≤ Fx.frac fee ∧ 0 ≤ w := by
+  have hla := Mfi.Props.C05.world_liquidation_amounts_are_the_amounts h hw
+  -- both scale factors exist (the computation went through them)
+  have hscales : ∃ sa sl, Risk.exp10fx dA = .ok sa ∧ Risk.exp10fx dL = .ok sl := by
+    unfold Risk.liquidationAmounts at hla
+    obtain ⟨fees, _, hla⟩ := Res.bind_ok hla
+    obtain ⟨fd, _, hla⟩ := Res.bind_ok hla
+    obtain ⟨ld, _, hla⟩ := Res.bind_ok hla
+    obtain ⟨v1, hv1, hla⟩ := Res.bind_ok hla
+    obtain ⟨l1, hl1, hla⟩ := Res.bind_ok hla
+    unfold Risk.calcValue at hv1
+    have hne : ¬ Fx.ofInt n = 0 := by
+      unfold Fx.ofInt; have := ONE_pos
+      intro h0
+      have : 0 < n * ONE := Int.mul_pos hn this
+      omega
+    rw [if_neg hne] at hv1
+    obtain ⟨sa, hsa, _⟩ := Res.bind_ok hv1
+    unfold Risk.calcAmount at hl1
+    obtain ⟨sl, hsl, _⟩ := Res.bind_ok hl1
+    exact ⟨sa, sl, hsa, hsl⟩
+  obtain ⟨sa, sl, hsa, hsl⟩ := hscales
+  obtain ⟨_, efee, hfee0, hfin0, ew, efr, esum, hfr0, _⟩ := Mfi.Props.C05.amounts_spec hsa hsl (le_of_lt hn) (le_of_lt hap) hlp hla
+  simp only at efee hfee0 hfin0 ew efr esum hfr0
+  have hw0 := (Mfi.Props.C19.toU64?_some hw).2.1
+  refine ⟨by omega, hfin0, by omega, hfr0, hw0⟩
+
+/-- what a successful `World.liquidate` went through (the part the solvency argument needs, on top of `liquidate_core`) -/
+theorem liquidate_core2 {c : LiqCtx} {amount : Int} {o : LiqOutW} (h : liquidate c amount = .ok o) :
+    0 < amount ∧ c.ab.opState ≠ 3 ∧ c.lb.opState ≠ 3 ∧
+    ∃ (a l : Bank) (aLq aFin aFee : Int) (lq1 : List Slot) (i1 : Nat) (s1 : Slot) (r1 : Bank × Balance) (i2 : Nat) (s2 : Slot) (r2 : Bank × Balance)
+      (lq3 : List Slot) (i3 : Nat) (s3 : Slot) (r3 : Bank × Balance) (i4 : Nat) (s4 : Slot) (r4 : Bank × Balance),
+      accrueInterest c.ab.books c.ab.ir c.now = .ok a ∧ accrueInterest c.lb.books c.lb.ir c.now = .ok l ∧
+      0 ≤ aLq ∧ 0 ≤ aFin ∧ aLq - aFin = o.insuranceTokens * ONE + Fx.frac aFee ∧ 0 ≤ Fx.frac aFee ∧ 0 ≤ o.insuranceTokens ∧
+      findOrCreate c.lq.slots c.lb.key l.assetTag c.now = .ok (lq1, i1) ∧ lq1[i1]? = some s1 ∧
+      decreaseBalance l (toBal s1) c.now aLq .bypassBorrowLimit = .ok r1 ∧
+      (sortBalances c.le.slots)[i2]? = some s2 ∧
+      decreaseBalance a (toBal s2) c.now (Fx.ofInt amount) .bypassBorrowLimit = .ok r2 ∧
+      findOrCreate (lq1.set i1 (ofBal c.lb.key r1.2)) c.ab.key r2.1.assetTag c.now = .ok (lq3, i3) ∧ lq3[i3]? = some s3 ∧
+      increaseBalance r2.1 (toBal s3) c.now (Fx.ofInt amount) .bypassDepositLimit = .ok r3 ∧
+      ((sortBalances c.le.slots).set i2 (ofBal c.ab.key r2.2))[i4]? = some s4 ∧
+      increaseBalance r1.1 (toBal s4) c.now aFin .repayOnly = .ok r4 ∧
+      o.lqSlots = sortBalances (lq3.set i3 (ofBal c.ab.key r3.2)) ∧
+      o.leSlots = ((sortBalances c.le.slots).set i2 (ofBal c.ab.key r2.2)).set i4 (ofBal c.lb.key r4.2) ∧
+      o.assetBooks = r3.1 ∧ o.liabBooks = { r4.1 with feeI := r4.1.feeI + Fx.frac aFee } := by
+  unfold liquidate at h
+  obtain ⟨_, _, h⟩ := Res.bind_ok h
+  obtain ⟨_, hamt, h⟩ := Res.bind_ok h
+  obtain ⟨_, hdiff, h⟩ := Res.bind_ok h
+  obtain ⟨_, _, h⟩ := Res.bind_ok h
+  obtain ⟨_, hsa, h⟩ := Res.bind_ok h
+  obtain ⟨_, hsl, h⟩ := Res.bind_ok h
+  obtain ⟨_, _, h⟩ := Res.bind_ok h
+  obtain ⟨_, _, h⟩ := Res.bind_ok h
+  obtain ⟨_, _, h⟩ := Res.bind_ok h
+  obtain ⟨a, ha, h⟩ := Res.bind_ok h
+  obtain ⟨l, hl, h⟩ := Res.bind_ok h
+  obtain ⟨_, _, h⟩ := Res.bind_ok h
+  obtain ⟨ps, _, h⟩ := Res.bind_ok h
+  obtain ⟨pre, _, h⟩ := Res.bind_ok h
+  obtain ⟨ap, _, h⟩ := Res.bind_ok h
+  obtain ⟨_, hap, h⟩ := Res.bind_ok h
+  obtain ⟨lp, _, h⟩ := Res.bind_ok h
+  obtain ⟨_, hlp, h⟩ := Res.bind_ok h
+  obtain ⟨⟨aLq, aFin, aFee⟩, hamts, h⟩ := Res.bind_ok h
+  dsimp only at h
+  obtain ⟨⟨lq1, i1⟩, hf1, h⟩ := Res.bind_ok h
+  dsimp only at h
+  obtain ⟨x1, hx1, h⟩ := Res.bind_ok h
+  obtain ⟨r1, hr1, h⟩ := Res.bind_ok h
+  obtain ⟨i2, hi2, h⟩ := Res.bind_ok h
+  obtain ⟨x2, hx2, h⟩ := Res.bind_ok h
+  obtain ⟨preA, _, h⟩ := Res.bind_ok h
+  obtain ⟨_, _, h⟩ := Res.bind_ok h
+  obtain ⟨r2, hr2, h⟩ := Res.bind_ok h
+  obtain ⟨⟨lq3, i3⟩, hf3, h⟩ := Res.bind_ok h
+  dsimp only at h
+  obtain ⟨x3, hx3, h⟩ := Res.bind_ok h
+  obtain ⟨r3, hr3, h⟩ := Res.bind_ok h
+  obtain ⟨fw, hfw, h⟩ := Res.bind_ok h
+  obtain ⟨i4, hi4, h⟩ := Res.bind_ok h
+  obtain ⟨x4, hx4, h⟩ := Res.bind_ok h
+  obtain ⟨r4, hr4, h⟩ := Res.bind_ok h
+  obtain ⟨f, hf, h⟩ := Res.bind_ok h
+  obtain ⟨ps', _, h⟩ := Res.bind_ok h
+  obtain ⟨lp', _, h⟩ := Res.bind_ok h
+  obtain ⟨post, _, h⟩ := Res.bind_ok h
+  obtain ⟨_, _, h⟩ := Res.bind_ok h
+  injection h with h
+  subst h
+  obtain ⟨s1, hs1, rfl⟩ := balAt_ok hx1
+  obtain ⟨s2, hs2, rfl⟩ := balAt_ok hx2
+  obtain ⟨s3, hs3, rfl⟩ := balAt_ok hx3
+  obtain ⟨s4, hs4, rfl⟩ := balAt_ok hx4
+  have hamt0 : 0 < amount := by simpa using chk_ok hamt
+  have hap0 : 0 < ap := by simpa using chk_ok hap
+  have hlp0 : 0 < lp := by simpa using chk_ok hlp
+  have hfw' : Fx.toU64? aFee = some fw := by
+    split at hfw
+    · rename_i w hw; injection hfw with hfw; subst hfw; exact hw
+    · cases hfw
+  obtain ⟨q1, q2, q3, q4, q5⟩ := liqAmountsLate_spec hamt0 hap0 hlp0 hamts hfw'
+  have ef := (add?_some (math_ok hf)).1
+  refine ⟨hamt0, stateOf_live hsa, stateOf_live hsl, a, l, aLq, aFin, aFee, lq1, i1, s1, r1, i2, s2, r2, lq3, i3, s3, r3, i4, s4, r4,
+    ha, hl, q1, q2, q3, q4, q5, hf1, hs1, hr1, hs2, hr2, hf3, hs3, hr3, hs4, hr4, rfl, rfl, rfl, ?_⟩
+  simp only
+  rw [ef]
+
+/-- hypotheses of a liquidation: both banks, both accounts -/
+structure Pre2 (c : LiqCtx) : Prop where
+  svA : SvFee c.ab.books
+  saA : 0 ≤ c.ab.books.sa
+  slA : 0 ≤ c.ab.books.sl
+  cfgA : CfgOk c.ab c.g.progFeeRate
+  liveA : c.ab.opState ≠ 3 → 0 < c.ab.books.asv
+  svL : SvFee c.lb.books
+  saL : 0 ≤ c.lb.books.sa
+  slL : 0 ≤ c.lb.books.sl
+  cfgL : CfgOk c.lb c.g.progFeeRate
+  liveL : c.lb.opState ≠ 3 → 0 < c.lb.books.asv
+  slotsQ : AllNN c.lq.slots
+  slotsE : AllNN c.le.slots
+
+/-- the books step of a liquidation: the collateral bank's vault does not move and its claims rise by less than one unit of
+    each share value (plus the accrual allowance); the debt bank pays the whole-token part of the insurance fee out of its
+    vault and its claims fall by that much, short of it by less than one unit of each share value -/
+structure Solv2 (c : LiqCtx) (o : LiqOutW) : Prop where
+  claimsA : claims o.assetBooks ≤ claims c.ab.books + accrueAllowance c.ab.books c.ab.ir c.now + (o.assetBooks.asv + o.assetBooks.lsv + 1)
+  claimsL : claims o.liabBooks ≤ claims c.lb.books - o.insuranceTokens * ONE * ONE + accrueAllowance c.lb.books c.lb.ir c.now +
+      (o.liabBooks.asv + o.liabBooks.lsv + 1)
+  svA : SvFee o.assetBooks
+  svL : SvFee o.liabBooks
+  monoA : c.ab.books.asv ≤ o.assetBooks.asv ∧ c.ab.books.lsv ≤ o.assetBooks.lsv
+  monoL : c.lb.books.asv ≤ o.liabBooks.asv ∧ c.lb.books.lsv ≤ o.liabBooks.lsv
+  slotsQ : AllNN o.lqSlots
+  slotsE : AllNN o.leSlots
+  ins : 0 ≤ o.insuranceTokens
+
+theorem liquidate_solv {c : LiqCtx} {amount : Int} {o : LiqOutW} (h : liquidate c amount = .ok o) (hp : Pre2 c) : Solv2 c o := by
+  have hONE := ONE_pos
+  obtain ⟨hamt, liveA, liveL, a, l, aLq, aFin, aFee, lq1, i1, s1, r1, i2, s2, r2, lq3, i3, s3, r3, i4, s4, r4,
+    ha, hl, q1, q2, q3, q4, q5, hf1, hs1, hr1, hs2, hr2, hf3, hs3, hr3, hs4, hr4, hoq, hoe, hoa, hol⟩ := liquidate_core2 h
+  obtain ⟨hclA, hsvA, mA1, mA2, _, _⟩ := accrue_solv ha hp.svA hp.saA hp.slA hp.cfgA.fees hp.cfgA.base
+  obtain ⟨hclL, hsvL, mL1, mL2, _, _⟩ := accrue_solv hl hp.svL hp.saL hp.slL hp.cfgL.fees hp.cfgL.base
+  have hasvA : 0 < a.asv := by have := hp.liveA liveA; omega
+  have hasvL : 0 < l.asv := by have := hp.liveL liveL; omega
+  have hofa : 0 ≤ Fx.ofInt amount := Int.mul_nonneg (le_of_lt hamt) (le_of_lt hONE)
+  -- move 1: liquidator takes the debt
+  have nnQ1 := AllNN_findOrCreate hf1 hp.slotsQ
+  have n1 := AllNN_get nnQ1 hs1
+  have st1 := decrease_step hr1 hsvL.asv (le_of_lt hsvL.lsv) q1 (by simpa [toBal] using n1.1)
+  have fr1 := dec_frame hr1
+  have x1 := Mfi.Props.C03.dec_nonneg hr1 q1 hasvL hsvL.lsv (by simpa [toBal] using n1.1) (by simpa [toBal] using n1.2)
+  have sv1 := SvFee_of_frame hsvL fr1
+  -- move 2: liquidatee gives up the collateral
+  have nnE := AllNN_sort hp.slotsE
+  have n2 := AllNN_get nnE hs2
+  have st2 := decrease_step hr2 hsvA.asv (le_of_lt hsvA.lsv) hofa (by simpa [toBal] using n2.1)
+  have fr2 := dec_frame hr2
+  have x2 := Mfi.Props.C03.dec_nonneg hr2 hofa hasvA hsvA.lsv (by simpa [toBal] using n2.1) (by simpa [toBal] using n2.2)
+  have sv2 := SvFee_of_frame hsvA fr2
+  -- move 3: liquidator receives it
+  have nnQ2 : AllNN (lq1.set i1 (ofBal c.lb.key r1.2)) := AllNN_set nnQ1 (ofBal_nn x1)
+  have nnQ3 := AllNN_findOrCreate hf3 nnQ2
+  have n3 := AllNN_get nnQ3 hs3
+  have st3 := increase_step hr3 sv2.asv (le_of_lt sv2.lsv) hofa (by simpa [toBal] using n3.2)
+  have fr3 := inc_frame hr3
+  have x3 := Mfi.Props.C03.inc_nonneg hr3 hofa (by rw [fr2.1]; exact hasvA) sv2.lsv (by simpa [toBal] using n3.1) (by simpa [toBal] using n3.2)
+  have sv3 := SvFee_of_frame sv2 fr3
+  -- move 4: liquidatee's debt is repaid
+  have nnE2 : AllNN ((sortBalances c.le.slots).set i2 (ofBal c.ab.key r2.2)) := AllNN_set nnE (ofBal_nn x2)
+  have n4 := AllNN_get nnE2 hs4
+  have st4 := increase_step hr4 sv1.asv (le_of_lt sv1.lsv) q2 (by simpa [toBal] using n4.2)
+  have fr4 := inc_frame hr4
+  have x4 := Mfi.Props.C03.inc_nonneg hr4 q2 (by rw [fr1.1]; exact hasvL) sv1.lsv (by simpa [toBal] using n4.1) (by simpa [toBal] using n4.2)
+  have sv4 := SvFee_of_frame sv1 fr4
+  have eA : o.assetBooks.asv = a.asv ∧ o.assetBooks.lsv = a.lsv := by rw [hoa, fr3.1, fr3.2.1, fr2.1, fr2.2.1]; exact ⟨rfl, rfl⟩
+  have eL : o.liabBooks.asv = l.asv ∧ o.liabBooks.lsv = l.lsv := by
+    rw [hol]; simp only; rw [fr4.1, fr4.2.1, fr1.1, fr1.2.1]; exact ⟨rfl, rfl⟩
+  have e1 : Fx.ofInt amount * ONE = amount * ONE * ONE := rfl
+  refine ⟨?_, ?_, by rw [hoa]; exact sv3, ?_, by rw [eA.1, eA.2]; exact ⟨mA1, mA2⟩, by rw [eL.1, eL.2]; exact ⟨mL1, mL2⟩,
+    by rw [hoq]; exact AllNN_sort (AllNN_set nnQ3 (ofBal_nn x3)), by rw [hoe]; exact AllNN_set nnE2 (ofBal_nn x4), q5⟩
+  · rw [eA.1, eA.2, hoa]
+    omega
+  · rw [eL.1, eL.2]
+    have hcl : claims o.liabBooks = claims r4.1 + Fx.frac aFee * ONE := by
+      rw [hol]; unfold claims; simp only; ring
+    have e2 : (aLq - aFin) * ONE = aLq * ONE - aFin * ONE := Int.sub_mul _ _ _
+    have e3 : (o.insuranceTokens * ONE + Fx.frac aFee) * ONE = o.insuranceTokens * ONE * ONE + Fx.frac aFee * ONE := Int.add_mul _ _ _
+    rw [q3] at e2
+    rw [hcl]
+    omega
+  · rw [hol]
+    exact ⟨sv4.asv, sv4.lsv, by simp only; have := sv4.feeI; omega, sv4.feeG, sv4.feeP⟩
+
 end Mfi.World
